@@ -48,7 +48,8 @@ VIS_H = """#ifndef VIS_H
 """
 
 ATOMS = ["int", "float", "bool", "double", "unsigned int", "short"]
-OPERS = ["+", "-", "*", "/", "==", "!=", "<", ">"]
+# no "/": under -python-native it copies an uninitialised SlottedFunctionDef::_keep_method (UBSan abort; not C04's matter)
+OPERS = ["+", "-", "*", "==", "!=", "<", ">"]
 
 DEFAULT_PARAMS = dict(
     tree=False,        # generate an include tree (cwd / sibling / -I / -S placements)
@@ -105,6 +106,7 @@ class VisGen:
         self.features = set()
         self.ncmd = dict(ignoremember=[], ignoretype=[], ignoreinvolved=[], ignorefile=[], forcetype=[])
         self.cur_chunk = None          # (file id, chunk index) being emitted
+        self._ownvis = 0               # visibility of the declaration being emitted (own, not inherited)
         self.kw_begin = "BEGIN_PUBLISH"
         self.kw_end = "END_PUBLISH"
 
@@ -143,10 +145,13 @@ class VisGen:
         return {"I": "incI", "S": "incS", "sib": "incsib"}[f["how"]]
 
     def add(self, name, tag, kind, c, vis, amb=False, excl=(), refs=(), simple=False, ctx="", **kw):
+        """vis: effective visibility (worst of own and enclosing nested classes; informational, decides the tag);
+        kw["ownvis"]: visibility of the declaration itself; excl: the entity's own exclusion reasons."""
         rec = dict(name=name, tag=tag, kind=kind, file=c.file["id"], vis=vis, amb=bool(amb or c.amb),
-                   excl=sorted(set(excl) | set(c.excl)), forced=c.forced, ns=c.ns, top=c.top, owner=c.owner,
+                   excl=sorted(set(excl)), cexcl=sorted(c.excl), forced=c.forced, ns=c.ns, top=c.top, owner=c.owner,
                    refs=sorted(set(refs)), simple=bool(simple), ctx=ctx or c.cctx, chunk=self.cur_chunk)
         rec.update(kw)
+        rec.setdefault("ownvis", self._ownvis)
         assert name not in self.ents
         self.ents[name] = rec
         return rec
@@ -234,10 +239,12 @@ class VisGen:
         if template:
             excl.add("tmpl")
         # a class at global/namespace scope is named as if published: its own visibility is not what decides
+        forced = bool(forced or c.forced)
         tag = self.tag_for(c.sub(forced=forced), vis if not global_scope else 0, excl)
         kind = "class" if global_scope else "nclass"
         name = self.nm(tag, "c" if global_scope else "nc")
-        q = c.qual + name
+        # a template (and what is nested in it) can only be named through its injected class name
+        q = name if template else c.qual + name
         bases = ""
         cands = [t for t in vtypes if t["kind"] == "class" and t["access"] is None and not t.get("tmpl")]
         base_refs = []
@@ -246,7 +253,9 @@ class VisGen:
             bases = " : " + rng.choice(["public ", "public ", "protected ", "private ", "virtual public "]) + b["q"]
             base_refs.append(b["name"])
         rec = self.add(name, tag, kind, c.sub(forced=forced), vis, amb_o and not global_scope, excl, refs=base_refs,
-                       ctx=(st_outer.ctx or c.cctx), region=bool(self.region_open), q=q, member_vis=[])
+                       ctx=(st_outer.ctx or c.cctx), region=bool(self.region_open), q=q, member_vis=[],
+                       ownvis=(0 if global_scope else vis_o), tmpl_self=bool(template),
+                       igt_target=("ign_type" in cexcl))
         if template:
             L.append(f"{ind}template<class T{self.n}> {key} {name}{bases} {{")
         else:
@@ -272,9 +281,18 @@ class VisGen:
         used_ops = set()
         info = dict(nctor=0, copy=False, move=False)
         n = max(2, int(rng.randint(4, 12) * self.p["size"] / (1 + depth)))
+        queue = []
+        if self.p["odd"] and not self.region_open and rng.random() < self.p["odd"] * 0.5:
+            # a scripted odd interleaving: a region that contains an access label and is closed without
+            # re-stating the access ("straddle"), possibly opened in a non-public section
+            queue = ["member"] * rng.randint(0, 2) + ["label"] + ["member"] * rng.randint(0, 1) + ["begin!"] + \
+                    ["member"] * rng.randint(0, 2) + ["label"] + ["member"] * rng.randint(0, 2) + ["end!"] + \
+                    ["member"] * rng.randint(1, 3)
+            n = max(n, len(queue))
         for _ in range(n):
+            act = queue.pop(0) if queue else None
             r = rng.random()
-            if r < 0.20:
+            if act == "label" or (act is None and r < 0.20):
                 self.label(st, L, ind[:-2])
                 if region_here:
                     labels_in_region = True
@@ -282,10 +300,10 @@ class VisGen:
                 elif st.ctx in ("straddle",):
                     st.ctx = ""
                 continue
-            if r < 0.27:
-                if not self.region_open:
+            if act in ("begin!", "end!") or (act is None and r < (0.27 if not self.p["odd"] else 0.36)):
+                if not self.region_open and act != "end!":
                     # open a class-level region
-                    if st.cxx > 1 and rng.random() >= self.p["odd"]:
+                    if st.cxx > 1 and act != "begin!" and rng.random() >= self.p["odd"]:
                         continue          # BEGIN_PUBLISH in a non-public section only as an "odd" interleaving
                     L.append(f"{ind[:-2]}{self.kw_begin}")
                     self.region_open = region_here = True
@@ -299,13 +317,13 @@ class VisGen:
                         st.pub = True
                         st.ctx = "cregion"
                     continue
-                if region_here:
+                if region_here and act != "begin!":
                     L.append(f"{ind[:-2]}{self.kw_end}")
                     self.region_open = region_here = False
                     if not labels_in_region:
                         # back to what was in force before the region
                         st.cxx, st.pub, st.ctx = before
-                    elif rng.random() >= self.p["odd"]:
+                    elif act != "end!" and rng.random() >= self.p["odd"]:
                         # re-state the access after a region that contained labels
                         self.label(st, L, ind[:-2])
                         st.ctx = ""
@@ -326,8 +344,11 @@ class VisGen:
         rng = self.rng
         vis_o, amb = st.own()
         vis = max(c.vis, vis_o)
-        crec["member_vis"].append(vis_o)
+        self._ownvis = vis_o
         ctx = st.ctx or c.cctx
+        # member_vis feeds "does the class have any member of sufficient visibility"; in the odd interleavings
+        # what the tool may legitimately consider visible is not settled, so be conservative there
+        crec["member_vis"].append(0 if st.ctx in ("straddle", "region-in-nonpublic", "label-in-cregion") else vis_o)
         privs = [t for t in own_types if t["access"] is not None]
         kinds = ["method"] * 8 + ["smethod"] * 2 + ["ctor"] * 2 + ["oper"] * 2 + ["dmember"] * 4 + ["sdmember"] + \
                 ["nenum"] * 2 + ["ntypedef", "tmplm", "deleted", "deleted_ctor", "rvref", "rvref_ctor", "friend",
@@ -364,7 +385,7 @@ class VisGen:
             name = self.nm(tag, "sm" if k == "smethod" else "m")
             kind = "smethod" if k == "smethod" else "method"
             self.add(name, tag, kind, c, vis, amb, excl, refs, simple and not excl, ctx)
-            ps = self.fmt_params(tag, params, name, c, vis, amb, excl, ctx)
+            ps = self.fmt_params(tag, params, name, c, vis, amb, excl, ctx, defaults=(k != "tmplm"))
             pre = ""
             post = ""
             if k == "smethod":
@@ -495,7 +516,7 @@ class VisGen:
             mc = Ctx(f)
             tag = self.tag_for(mc, mvis, ())
             name = self.nm(tag, "mac")
-            self.add(name, tag, "macro", mc, mvis, False, (), (), False, "macro-in-class")
+            self.add(name, tag, "macro", mc, mvis, False, (), (), False, "macro-in-class", ownvis=mvis)
             L.append(f"#define {name} {rng.randint(1, 999)}")
             return
         if k == "nclass":
@@ -516,6 +537,7 @@ class VisGen:
         rng = self.rng
         vis_o, amb = st.own()
         vis = vis_o
+        self._ownvis = vis_o
         ctx = c.cctx or ("ns" if c.ns else "")
         kinds = ["func"] * 5 + ["var"] * 3 + ["enum"] * 3 + ["macro"] * 2 + ["class"] * 6 + ["typedef"] + \
                 ["tmplc", "tmplf", "deleted", "rvref", "sfunc", "fwd", "inlinef"]
@@ -538,7 +560,7 @@ class VisGen:
             tag = self.tag_for(c, vis, excl) if judge else "unspec"
             name = self.nm(tag, "f")
             self.add(name, tag, "func", c, vis, amb, excl, refs, simple and not excl and judge, ctx, judge=judge)
-            ps = self.fmt_params(tag, params, name, c, vis, amb, excl, ctx)
+            ps = self.fmt_params(tag, params, name, c, vis, amb, excl, ctx, defaults=(k != "tmplf"))
             if not judge:
                 for p_ in [e for e in self.ents.values() if e.get("of") == name]:
                     p_["judge"] = False
@@ -579,12 +601,12 @@ class VisGen:
             mvis = 0 if self.region_open else 1
             tag = self.tag_for(mc, mvis, ())
             name = self.nm(tag, "mac")
-            self.add(name, tag, "macro", mc, mvis, False, (), (), False, "")
+            self.add(name, tag, "macro", mc, mvis, False, (), (), False, "", ownvis=mvis)
             val = rng.choice([str(rng.randint(1, 999)), '"s%d"' % rng.randint(1, 99), "(1 + %d)" % rng.randint(1, 9)])
             L.append(f"#define {name} {val}")
             if rng.random() < 0.2:
                 fn = self.nm("unspec", "mac")
-                self.add(fn, "unspec", "macro", mc, mvis, False, (), (), False, "", judge=False)
+                self.add(fn, "unspec", "macro", mc, mvis, False, (), (), False, "", judge=False, ownvis=mvis)
                 L.append(f"#define {fn}(x) ((x) + 1)")
         elif k in ("class", "tmplc", "ign_type_class", "involved_class"):
             cexcl = set()
@@ -773,8 +795,8 @@ class VisGen:
                 kb = self.nm("plainpublic", "mac")
                 ke = self.nm("plainpublic", "mac")
                 self.cur_chunk = None
-                self.add(kb, "plainpublic", "macro", mc, 1, False, (), (), False, "kwmacro", kwmacro=True)
-                self.add(ke, "plainpublic", "macro", mc, 1, False, (), (), False, "kwmacro", kwmacro=True)
+                self.add(kb, "plainpublic", "macro", mc, 1, False, (), (), False, "kwmacro", kwmacro=True, ownvis=1)
+                self.add(ke, "plainpublic", "macro", mc, 1, False, (), (), False, "kwmacro", kwmacro=True, ownvis=1)
                 pre += ["#ifdef CPPPARSER", f"#define {kb} __begin_publish", f"#define {ke} __end_publish", "#else",
                         f"#define {kb}", f"#define {ke}", "#endif"]
                 self.kw_begin, self.kw_end = kb, ke
